@@ -398,7 +398,9 @@ def replace_matching_item(
             anon_val = prefix + _anonymize_value(
                 match.group(sensitive_item_num), pwd_lookup, reserved_words, salt
             )
-            output_line = compiled_re.sub(anon_val, output_line)
+            # Substitute via a function so that anon_val is taken literally (a plain
+            # string would be interpreted as a template: backslashes, group references)
+            output_line = compiled_re.sub(lambda _match: anon_val, output_line)
 
         # If any matches existed in this regex group, stop processing more regexes
         if match_found:
